@@ -71,6 +71,7 @@ let runners : (string * (z list -> z list)) list = [
   "fnode", run_fnode;
   "mon", run_mon;
   "deque", run_deque;
+  "exc", run_exc;
   "suspend", run_suspend;
   "once", run_once;
 ]
